@@ -273,11 +273,12 @@ func runC10(s *spec.Spec, logPath string) {
 			c.firstNow = now
 		}
 		c.lastNow = now
+		// "the current year" is the civil year of the caller's wall clock, i.e. in the process-local zone
+		// (that is what the library reads, and what an independent reader of the statement took it to mean:
+		// seeded change c10e, which reads the year in UTC, loses the rest of the local year for up to 14 hours
+		// after a local New Year east of Greenwich)
 		curL, curU := now.In(time.Local).Year(), now.UTC().Year()
 		cur := curL
-		if curU < cur {
-			cur = curU
-		}
 		base := lk.Base
 		if lk.API != 0 {
 			base = 1900
